@@ -150,6 +150,16 @@ pub(crate) fn setup<'a, const K: usize, const B: usize>(t: &'a Txt<K, B>, modes:
         }
     }
     lx.start_token();
+    // error history: nothing the lexer does may depend on what was reported earlier; one earlier error
+    // of an arbitrary kind at the current position makes that part of every pre-state
+    if kani::any() {
+        let kind = match kani::any::<u8>() % 3 {
+            0 => ErrorKind::OpenCodeRecursionError,
+            1 => ErrorKind::MissingExpectedRParen,
+            _ => ErrorKind::UnterminatedStringLiteral,
+        };
+        lx.sh_emit_error(kind);
+    }
     lx
 }
 
@@ -998,6 +1008,9 @@ pub(crate) fn run_finalize(modes: &[LexerMode], last_is_str_start: bool) {
     let first_at = shadow::tok_n() - 1 - hidden_after as usize;
     let first_tt = shadow::tok(first_at).token_type;
     let pre = snapshot(&lx, &t);
+    // as in a real run, the token start mark is still that of the last token lexed, not the end of input
+    lx.cur_token_byte_offset = ByteOffset::new(eof_b - 1);
+    lx.cur_token_start = CharOffset::new(t.pre_c - 1);
     lx.finalize_lexing();
     assert!(lx.cur_byte_offset().get() == eof_b && lx.mode_stack.is_empty(), "C10: finalize_lexing unwinds the whole mode stack");
     assert!(shadow::line_n() as u32 == 1 + t.pre_nl, "C04: finalize_lexing adds no line");
